@@ -165,7 +165,32 @@ func c10(c *Ctx) {
 							d2, _ := g.DominatedByEdges(y, func(ed *GEdge) bool {
 								return edgeImplies(ed, func(cnd ast.Expr, pol int) bool { return pol < 0 && isZeroOf(cnd, r) })
 							})
+							// … or repaired before the use: endTime := config.Timestamp(); if endTime.IsZero() { endTime = et } — from
+							// the assignment every way to the use crosses the !IsZero() outcome of a test of the local, or another
+							// assignment to it (judged on its own)
+							d3 := false
 							if !d1 && !d2 {
+								reassigned := func(z *GNode) bool {
+									if z == y {
+										return false
+									}
+									as2, isAs2 := z.N.(*ast.AssignStmt)
+									if !isAs2 {
+										return false
+									}
+									for _, l2 := range as2.Lhs {
+										if sameVar(info, l2, v) {
+											return true
+										}
+									}
+									return false
+								}
+								seen, _ := g.Reach([]*GNode{y}, reassigned, func(ed *GEdge) bool {
+									return edgeImplies(ed, func(cnd ast.Expr, pol int) bool { return pol < 0 && isZeroOf(cnd, l) })
+								})
+								d3 = !seen[at]
+							}
+							if !d1 && !d2 && !d3 {
 								bad = "the local " + v.Name() + " can hold the option's timestamp without it having been found !IsZero()"
 							}
 							continue
